@@ -173,8 +173,89 @@ def mod_common_factor(a):
     return (-a) % (2 * a)
 
 
+def diff2(a, b):
+    return a - b
+
+
+def outer_expr(a, b):
+    # every argument mentions the helper's own parameter names crosswise and none is a bare name (seeded C06-2:
+    # simultaneous substitution only when a bare model name collides)
+    return diff2(b * 2, a + 1)
+
+
+def hill3(s, k, n):
+    return s**n / (k**n + s**n)
+
+
+def outer_expr3(s, k, n):
+    return hill3(k * s, s + 1.0, n)
+
+
+def saturation(s, n=2.0):
+    return s**n / (1.0 + s**n)
+
+
+def hill(s, vmax):
+    return vmax * saturation(s)  # relies on the default: must be refused, or translated with n = 2.0
+
+
+def hill_explicit(s, vmax):
+    return vmax * saturation(s, 2.0)
+
+
+def kwonly(s, *, n=2.0):
+    return s * n
+
+
+def call_kwonly(s):
+    return kwonly(s)
+
+
+def varargs(s, *rest):
+    return s * 2
+
+
+def call_varargs(s):
+    return varargs(s)
+
+
+def call_varargs_more(s):
+    return varargs(s, 5.0)
+
+
+def two_defaults(a, b=3.0, c=0.5):
+    return a * b - c
+
+
+def call_two_defaults(a, b):
+    return two_defaults(a) + two_defaults(a, b) + two_defaults(b, a, 2.0)
+
+
+def allopt(n=2.0):
+    return n * 3
+
+
+def caller0(a):
+    return a + allopt()  # zero arguments: the shipped code skips the strict zip and leaves `n` in the expression
+
+
+def no_return(a, b):
+    b = b
+    pass  # falls off its end: CPython returns None; the translator's fallback says "b"
+
+
+def compares_none(a, b):
+    if no_return(1, 3.0) == b:  # None == b is False for every number b
+        return a * 2
+    return b
+
+
 # witnesses of recorded (unrepaired) findings: id -> (function, model_args)
-KNOWN = {"sympy-mod-common-factor": ("mod_common_factor", None)}
+KNOWN = {
+    "sympy-mod-common-factor": ("mod_common_factor", None),
+    "fallthrough-callee-compared": ("compares_none", None),
+    "zero-arg-call-of-defaulted-helper": ("caller0", None),
+}
 
 WITNESSES = [
     ("swap", ["b", "a"]),
@@ -203,4 +284,17 @@ WITNESSES = [
     ("guard_then_reassign", ["k", "x"]),
     ("pass_then_reassign", None),
     ("two_guards_then_reassign", None),
+    ("outer_expr", None),
+    ("outer_expr", ["b", "a"]),
+    ("outer_expr3", None),
+    ("hill", None),
+    ("hill", ["vmax", "s"]),
+    ("hill", ["n", "vmax"]),
+    ("hill_explicit", ["vmax", "s"]),
+    ("call_kwonly", None),
+    ("call_varargs", ["x"]),
+    ("call_varargs_more", None),
+    ("call_two_defaults", None),
+    ("call_two_defaults", ["b", "a"]),
+    ("saturation", ["n", "s"]),
 ]
